@@ -172,6 +172,8 @@ Inductive jcase :=
 | JSerJson97 (t : list orow) (fixed : bool) (m : smember) (payload : bytes) (src : keysrc)
              (algs : option (list str)) (expect : res jval)
 | JDetachCompact (tok : bytes) (expect : res bytes)
+(* raw octets given to OctKey.import_key -> key material used by the MAC (key.raw_value / get_op_key) *)
+| JOctImport (given used : bytes)
 (* the algorithm wrappers alone, with a recording primitive: *)
 | JAlgVerify (t : list orow) (alg : str) (k : key) (msg sig : bytes) (expect : res bool)
 | JAlgSign (t : list orow) (alg : str) (k : key) (msg : bytes) (expect : res bytes).
@@ -193,6 +195,7 @@ Definition jcase_run (c : jcase) : (cres + jres) + (res bytes + (res jval + res 
   | JSerGen t ms payload src algs _ => inr (inr (inl (M_sign_general t ms payload (reg15 algs) src)))
   | JSerJson97 t fixed m payload src algs _ => inr (inr (inl (M_ser_json97 t fixed m payload src algs)))
   | JDetachCompact tok _ => inr (inl (detach_compact tok))
+  | JOctImport given _ => inr (inl (Ok (import_oct given)))
   | JAlgVerify t alg k msg sig _ =>
       inr (inr (inr (with_alg alg (fun r => alg_verify (T_mac t) (T_verify t) (T_ecverify t) r k msg sig))))
   | JAlgSign t alg k msg _ =>
@@ -210,6 +213,7 @@ Definition jcase_check (c : jcase) : bool :=
   | JSerCompact _ _ _ _ _ e, inr (inl r) => res_eqb beqb r e
   | JSerCompact97 _ _ _ _ _ _ e, inr (inl r) => res_eqb beqb r e
   | JDetachCompact _ e, inr (inl r) => res_eqb beqb r e
+  | JOctImport _ used, inr (inl r) => res_eqb beqb r (Ok used)
   | JAlgSign _ _ _ _ e, inr (inl r) => res_eqb beqb r e
   | JSerFlat _ _ _ _ _ e, inr (inr (inl r)) => res_eqb jval_eqb r e
   | JSerGen _ _ _ _ _ e, inr (inr (inl r)) => res_eqb jval_eqb r e
